@@ -88,6 +88,34 @@ def layer_task(t):
         T[nm] = mg.tensor(rs.standard_normal(shape).astype(d))
         return T[nm]
 
+    if name.startswith("setshape"):
+        # a tensor that holds the gradient of a finished backward() gets a new shape assigned in place (tracked, or inside no_autodiff; as an isolated leaf,
+        # with a live view, or as a view): every gradient still stored / derivable afterwards has ITS tensor's shape
+        x = mk("x", 2, 3)
+        v0 = x[0] if "view" in name else None
+        tgt = x
+        if name.endswith("_of_view"):
+            tgt = x[...]
+            T["tgt"] = tgt
+        ((tgt if tgt is not x else x) * x).sum().backward()
+        new = [(3, 2), (6,), (1, 6), (2, 3, 1)][t["seed"] % 4]
+        try:
+            if "untracked" in name:
+                with mg.no_autodiff:
+                    tgt.shape = new
+            else:
+                tgt.shape = new
+        except Exception as e:
+            return {"exc": type(e).__name__ + ": " + str(e)[:100], "oracle": []}
+        T["after_view"] = tgt[0]
+        if v0 is not None:
+            T["v0"] = v0
+        for nm, tt in T.items():
+            try:
+                inv(fails, nm, tt)
+            except Exception as e:
+                fails.append("reading %s.grad raised %s" % (nm, type(e).__name__))
+        return {"exc": None, "oracle": fails}
     try:
         if name == "conv":
             out = layers.conv_nd(mk("x", 2, 2, 5, 5), mk("w", 3, 2, 2, 2), stride=1, padding=t.get("pad", 0))
